@@ -1187,6 +1187,8 @@ def object_field_paths(fn, root, ops=('load', 'cmpxchg', 'atomicrmw'), store=Fal
             if ins.op == 'store':
                 ptr = ins.ops[1]
             elif ins.op == 'call' and (ins.callee or '').startswith(('llvm.memcpy', 'llvm.memset', 'llvm.memmove')):
+                if const_int(ins.args[2]) == 0:
+                    continue        # an empty struct: writes nothing (and its address is that of the next member)
                 ptr = ins.args[0]
             else:
                 continue
